@@ -317,6 +317,11 @@ class TokWire:
             self.raised = False
             return head + ([('star', body)] if body else [])
         if isinstance(st, ast.Assign):
+            # a local in-memory stream (`buf = BytesIO()`) is a stream of this function whatever it is called
+            if isinstance(st.value, ast.Call) and (dotted(st.value.func) or '').split('.')[-1] == 'BytesIO' and not st.value.args:
+                for t_ in st.targets:
+                    if isinstance(t_, ast.Name):
+                        self.stream.add(t_.id)
             toks = self.expr(st.value, st.targets[0] if len(st.targets) == 1 else None)
             for t in st.targets:
                 self.note_assign(t, st.value)
